@@ -65,6 +65,10 @@ for (ki, ko, tiers, cost) in ((1, 1, ("quick", "thorough"), 2), (2, 1, ("quick",
     OBLIGATIONS.append(M("C03", f"c03_bip143_k{ki}x{ko}", {"q": "bip143", "k_in": ki, "k_out": ko}, BIP143_FUNCS,
                          f"{ki} inputs x {ko} outputs, every input index 0..{ki} (incl. one past the end), all six FORKID flags, empty hash cache; all scalars, 64-bit value and "
                          "all script/subscript lengths symbolic (lengths <= 2^33, crossing 252/253, 65535/65536 and 2^32 inside one query)", cost=cost, tiers=tiers))
+OBLIGATIONS.append(M("C03", "c03_sighash_leaves_cache_current", {"q": "cache_step", "k_in": 2, "k_out": 2, "only": ["sighash_preimage_impl"], "name": "cache_step_sighash_only"},
+                     ["Transaction::sighash_preimage_impl and callees"],
+                     "after a sighash call with any of the 14 SigHash values from an empty or fully cached 2x2 transaction, every cache slot is absent or current - so a later FORKID preimage of the same object cannot silently use a digest of other data (history-dependent C03 violations; the full inductive argument is C04)", cost=3))
+EXPLANATION["C03"] += " Plus one obligation shared with C04: a sighash call leaves every cache slot absent-or-current."
 
 # ---------------------------------------------------------------- C04
 EXPLANATION["C04"] = ("Sighash independent of call history, decided as ONE INDUCTIVE STEP instead of enumerating histories: invariant Inv = every hash-cache slot is "
